@@ -1,3 +1,4 @@
+import Pocket.Lemmas.FromSourceConsts
 import Pocket.Model.Crash
 import Pocket.Lemmas.StoreRead
 import Pocket.Lemmas.EventMap
@@ -112,5 +113,13 @@ theorem creation_map_states (chunk : Nat) (hc : chunk % 8 = 0) (hc8 : 8 ≤ chun
 /-- non-vacuity: a store of 5000 bytes into a fresh one-chunk map passes through two growth rounds -/
 example : emStoreStates 2048 ⟨2048, 8, 2048, 2048⟩ 5000 = [(2048, 8), (2048, 8), (4096, 8), (6144, 8), (6144, 5008)] := by
   decide
+
+/-! ### tie to the source text: what /repo says now (translated on every run by `lib/srcfacts.py`) is what the model says -/
+
+/-- the growth chunk of both build configurations (`EVENT_MAP_CHUNK`, debug and release) satisfies what the event-map
+theorems assume of it: a multiple of 8, at least the header -/
+theorem map_chunks_from_source :
+    ∀ c ∈ Src.c_event_store_EVENT_MAP_CHUNK_debug ++ Src.c_event_store_EVENT_MAP_CHUNK_release, c % 8 = 0 ∧ 8 ≤ c :=
+  Pocket.map_chunks_from_source
 
 end Pocket.C13
